@@ -199,21 +199,22 @@ func pickLive(t *rapid.T, m *Model, recent []uint32, label string) (uint32, bool
 
 // TxnCfg controls transaction generation.
 type TxnCfg struct {
-	Prop           string // property the exclusion counters are reported under
-	MaxSteps       int
-	Rollback       bool // transactions may end in an error
-	FailInsert     bool // insert callbacks may fail (swallowed by the body)
-	Deletes        bool
-	Inserts        bool
-	Merges         bool
-	OwnUpdates     bool // stores on rows inserted earlier in the same transaction
-	KeyOps         bool // on keyed schemas: key operations (otherwise only InsertKey for new rows)
-	Direct         bool // single-step transactions may use the collection-level methods
-	OnlyCols       []int
-	NoStoreOnDel   bool                                             // never store to a row that the same transaction deletes (known finding F11)
-	NoDoubleDelete bool                                             // never delete one row twice in one transaction
-	StringAlphabet []string                                         // if set, string values are drawn from this alphabet
-	SafeValue      func(t *rapid.T, cs ColSpec, label string) Value // if set, replaces the edge-biased value generator
+	Prop              string // property the exclusion counters are reported under
+	MaxSteps          int
+	Rollback          bool // transactions may end in an error
+	FailInsert        bool // insert callbacks may fail (swallowed by the body)
+	Deletes           bool
+	Inserts           bool
+	Merges            bool
+	OwnUpdates        bool // stores on rows inserted earlier in the same transaction
+	KeyOps            bool // on keyed schemas: key operations (otherwise only InsertKey for new rows)
+	Direct            bool // single-step transactions may use the collection-level methods
+	OnlyCols          []int
+	NoStoreOnDel      bool                                             // never store to a row that the same transaction deletes (known finding F11)
+	NoOpAfterLenMerge bool                                             // known finding f15: no later store to a row+column after a length-changing merge in the same transaction
+	NoDoubleDelete    bool                                             // never delete one row twice in one transaction
+	StringAlphabet    []string                                         // if set, string values are drawn from this alphabet
+	SafeValue         func(t *rapid.T, cs ColSpec, label string) Value // if set, replaces the edge-biased value generator
 }
 
 func storableCols(m *Model, cfg TxnCfg) []int {
@@ -234,7 +235,16 @@ func storableCols(m *Model, cfg TxnCfg) []int {
 	return cols
 }
 
+// txnGenCtx carries per-transaction generator state.
+type txnGenCtx struct {
+	lenMerged map[string]bool // rowKey/col that had a length-changing merge
+}
+
 func genStores(t *rapid.T, m *Model, cfg TxnCfg, min, max int, label string) []Store {
+	return genStoresCtx(t, m, cfg, min, max, label, nil, "")
+}
+
+func genStoresCtx(t *rapid.T, m *Model, cfg TxnCfg, min, max int, label string, ctx *txnGenCtx, rowKey string) []Store {
 	cols := storableCols(m, cfg)
 	if len(cols) == 0 {
 		return nil
@@ -257,6 +267,16 @@ func genStores(t *rapid.T, m *Model, cfg TxnCfg, min, max int, label string) []S
 			st.Val = genValue(t, cs, label+"-val")
 		}
 		st.Via = uint8(rapid.IntRange(0, numVias-1).Draw(t, label+"-via"))
+		if ctx != nil {
+			key := fmt.Sprintf("%s/%d", rowKey, ci)
+			if cfg.NoOpAfterLenMerge && ctx.lenMerged[key] {
+				CountExcluded(cfg.Prop, "f15-difflen-merge-reorder")
+				continue
+			}
+			if st.Merge && mergeChangesLen(cs.Kind, cs.Merge) {
+				ctx.lenMerged[key] = true
+			}
+		}
 		out = append(out, st)
 	}
 	return out
@@ -274,6 +294,9 @@ func genTxn(t *rapid.T, m *Model, recent []uint32, cfg TxnCfg) TxnSpec {
 	deleting := map[uint32]bool{}
 	stored := map[uint32]bool{}
 	creating := map[string]bool{} // keys that a creating operation of this txn uses
+	ctx := &txnGenCtx{lenMerged: map[string]bool{}}
+	rk := func(row uint32) string { return fmt.Sprintf("r%d", row) }
+	ik := func(step int) string { return fmt.Sprintf("i%d", step) }
 	for i := 0; i < n; i++ {
 		// choose the step kind
 		type choice struct {
@@ -328,7 +351,7 @@ func genTxn(t *rapid.T, m *Model, recent []uint32, cfg TxnCfg) TxnSpec {
 				continue
 			}
 			st.Row = row
-			st.Stores = genStores(t, m, cfg, 1, 4, "st")
+			st.Stores = genStoresCtx(t, m, cfg, 1, 4, "st", ctx, rk(row))
 			stored[row] = true
 		case SDelete:
 			row, _ := pickLive(t, m, recent, "row")
@@ -343,7 +366,7 @@ func genTxn(t *rapid.T, m *Model, recent []uint32, cfg TxnCfg) TxnSpec {
 			st.Row = row
 			deleting[row] = true
 		case SInsert:
-			st.Stores = genStores(t, m, cfg, 0, 4, "ins")
+			st.Stores = genStoresCtx(t, m, cfg, 0, 4, "ins", ctx, ik(len(spec.Steps)))
 			if cfg.FailInsert && rapid.IntRange(0, 5).Draw(t, "ins-fail") == 0 {
 				st.Fail = true
 			} else {
@@ -355,7 +378,12 @@ func genTxn(t *rapid.T, m *Model, recent []uint32, cfg TxnCfg) TxnSpec {
 				// plain histories on keyed schemas: always a fresh key
 				st.Key = fmt.Sprintf("u%d_%d", len(m.Rows), rapid.IntRange(0, 1<<30).Draw(t, "fresh-key"))
 			}
-			st.Stores = genStores(t, m, cfg, 0, 3, "ins")
+			at0, exists0 := m.KeyOf(st.Key)
+			rowKey := ik(len(spec.Steps))
+			if exists0 {
+				rowKey = rk(at0)
+			}
+			st.Stores = genStoresCtx(t, m, cfg, 0, 3, "ins", ctx, rowKey)
 			_, exists := m.KeyOf(st.Key)
 			if !exists {
 				if creating[st.Key] {
@@ -381,7 +409,11 @@ func genTxn(t *rapid.T, m *Model, recent []uint32, cfg TxnCfg) TxnSpec {
 			}
 		case SQueryKey:
 			st.Key = rapid.SampledFrom(keyAlphabet).Draw(t, "key")
-			st.Stores = genStores(t, m, cfg, 0, 3, "q")
+			if at, ok := m.KeyOf(st.Key); ok {
+				st.Stores = genStoresCtx(t, m, cfg, 0, 3, "q", ctx, rk(at))
+			} else {
+				st.Stores = genStoresCtx(t, m, cfg, 0, 3, "q", ctx, "none")
+			}
 			if at, ok := m.KeyOf(st.Key); ok {
 				if cfg.NoStoreOnDel && deleting[at] {
 					CountExcluded(cfg.Prop, "f11-store-and-delete-same-txn")
@@ -420,7 +452,7 @@ func genTxn(t *rapid.T, m *Model, recent []uint32, cfg TxnCfg) TxnSpec {
 			}
 		case SOwnUpdate:
 			st.Row = uint32(inserts[rapid.IntRange(0, len(inserts)-1).Draw(t, "own")])
-			st.Stores = genStores(t, m, cfg, 1, 3, "own-st")
+			st.Stores = genStoresCtx(t, m, cfg, 1, 3, "own-st", ctx, ik(int(st.Row)))
 		}
 		spec.Steps = append(spec.Steps, st)
 	}
